@@ -266,7 +266,7 @@ CHECKS = {
     'C03': dict(
         category='other',
         text=('Bounded exhaustive exploration, enumerated by z3 and executed natively on real .xlsx files through the real Parser, of dependency graphs: '
-              '3 formula cells on 2 sheets, every one of the 512 edge sets (self loops, cross-sheet edges) x 5 rotations of base formulas (the same '
+              '3 formula cells on 2 sheets, every one of the 512 edge sets (self loops, cross-sheet edges) x 10 assignments of base formulas (5 rotations, 5 uniform; the same '
               'unqualified text on two sheets, rectangles sharing a start cell with different extents used repeatedly, a whole-column reference). Per '
               'workbook the whole translation and the entry-point translation from each formula cell are checked: cycle (anywhere / reachable from '
               "the entry) => the library's parser exception; else the slice is closed, contains everything the entry reaches and evaluates each of "
